@@ -225,6 +225,7 @@ Expect(a, rq) == ExpectP(a, rq, FALSE)
 (*   build : calls during construction                                     *)
 (*   iters : [k, calls] for k = 0 .. : a fresh iterator, k results taken   *)
 (*   gets  : [i, ok, calls] for ds[i]                                      *)
+(*   getk  : [i, key, ok, calls] for ds[key], key = keys()[i]              *)
 (* a call is [s |-> stage, xs |-> atoms of the argument].                  *)
 
 CallsOf(calls, s) == LET ps == SelectIdx(calls, LAMBDA c : c.s = s, 1)
@@ -265,6 +266,12 @@ V_C08(a, logs) ==
             /\ Indexable(a) /\ logs.gets[j].i < n
             /\ ~Matches(logs.gets[j].calls, Expect(a, IdxReq(<<logs.gets[j].i + 1>>, <<>>)))
        THEN <<"viol", "getitem-evaluates-other-than-its-constituents">>
+  \* ds[key]: the key of output position i + 1 (only where keys() lists the keys)
+  ELSE IF \E j \in 1..Len(logs.getk) :
+            /\ Indexable(a) /\ DRef(a).kcap = "keys" /\ logs.getk[j].i < n
+            /\ logs.getk[j].key = Els(a)[logs.getk[j].i + 1].k
+            /\ ~Matches(logs.getk[j].calls, Expect(a, IdxReq(<<logs.getk[j].i + 1>>, <<>>)))
+       THEN <<"viol", "key-lookup-evaluates-other-than-its-constituents">>
   ELSE IF n = 0 THEN <<"trivial", "empty">> ELSE <<"ok", "">>
 
 -----------------------------------------------------------------------------
